@@ -13,7 +13,9 @@ NAME_CHARS = "abcdefghijklmnopqrstuvwxyzABCDEFGHIJKLMNOPQRSTUVWXYZ0123456789_/()
 TAG_CHARS = "abcdefghijklmnopqrstuvwxyzABCDEFGHIJKLMNOPQRSTUVWXYZ0123456789_/."        # lineshape tags: kMatrix.pole.0, GSpline.EFF
 KEYWORDS = {"EVENTTYPE": "EventType", "NEVENTS": "nEvents", "OUTPUT": "Output", "__ANON_0": "FastCoherentSum::UseCartesian"}
 PUNCT = {"EQUAL": "=", "SEMICOLON": ";", "LSQB": "[", "RSQB": "]", "LBRACE": "{", "RBRACE": "}", "COMMA": ","}
-DEPTH = 3
+import os as _os
+
+DEPTH = 4 if _os.environ.get("VERIF_TIER") == "thorough" else 3
 
 
 def in_set(ch, chars):
